@@ -199,6 +199,9 @@ def other_lines() -> List[Tuple[str, Any]]:
         ("blank line", Str.lit("")),
         ("section header", Str.lit("Disassembly of section .text:")),
         ("file-format header", Str.lit("a.out:     file format elf64-x86-64")),
+        ("file-format header of a file with a drive letter", Str.lit("C:\\fw\\stage2.efi:     file format pei-x86-64")),
+        ("file-format header of an archive member", Str.lit("libfw.a:stage2.o:     file format elf64-x86-64")),
+        ("file-format header without a colon", Str.lit("stage2.o     file format elf64-x86-64")),
         ("symbol label", T("0000000000", AD, " <", SY, ">:")),
         ("elision", Str.lit("\t...")),
         ("byte-continuation line", T("  ", AD, ":\t00 00 00 ")),
